@@ -14,8 +14,22 @@ def run():
                      "sets, '='/'!=' with a list, 2-tuples, kwargs, with a NULL member, with duplicates) alone, AND-ed, inside OR "
                      "groups and in seeded trees (quick 40, thorough 1500) on a 1500-row table with NULLs, duplicates and "
                      "quotes, part of whose values are members; "
+                     "static conditions (caller-supplied SQL text: comparisons with quoted text literals of lower, upper and "
+                     "mixed letter case, with quotes and '?', numbers, NULL, IN / NOT IN lists, LIKE, IS [NOT] NULL, column "
+                     "against column, AND / OR / NOT combinations; identifiers and keywords in lower, upper and mixed case, "
+                     "table-qualified identifiers, varying spacing, '<>' / '==', literal first) rendered from a condition tree "
+                     "that is evaluated by the same three-valued evaluator: every static leaf alone (canonical + seeded "
+                     "spellings), composite ones, a grid static x bound leaf AND-ed in both orders / with keyword filters and "
+                     "ignored None / inside OR groups, pairs of static conditions, and seeded trees (quick 900, thorough "
+                     "20000) in which every leaf position may be static; on the 6-row table and on a 12-row table whose text "
+                     "values differ by letter case only; "
                      "cursor.execute is spied on for placeholders/parameters; non-trivial = a NULL-sensitive operator is involved",
-        extra_assumptions=["static string conditions (caller-supplied SQL text) are excluded",
+        extra_assumptions=["static string conditions (caller-supplied SQL text): the intended row set is that of the condition "
+                           "as written, taken from the tree the driver rendered the text from; a static condition whose "
+                           "top-level operator is OR is parenthesised by the caller when it is AND-ed with other filters "
+                           "(the statement is assembled without parentheses around static texts); a '?' inside a quoted "
+                           "literal of a static text is text, not a placeholder; that the text reaches the statement "
+                           "verbatim is a supporting clause (diagnostic), only the row set is demanded",
                            "comparison operands are scalars (('=', set) reaches the driver as an unbindable parameter: an "
                            "exception, not a wrong row set)",
                            "number of placeholders == number of parameters follows from text == render(intent) and "
